@@ -48,6 +48,9 @@ class C07Ext(statsext.StatsExt):
         super().on_construct(runner, model)
         self.runner = runner
         self.model = model
+        if self.case.get("default_stream_info"):
+            from pydsol.core.streams import StreamInformation
+            model.streams[0] = StreamInformation().get_stream("default")
         su = self.case.get("seed_update")
         if su:
             # the model registers its streams under ids (one generator may serve
